@@ -53,6 +53,30 @@ class GraphHooks(Hooks):
         h.fields['$sedges'] = path.alloc('list', site=node)
         return o
 
+    adjacency_field = '_next'
+
+    def getattr(self, I, val, name, path, node):
+        # the adjacency dictionary of a graph that exists only as a
+        # constructor primitive: materialised when it is the empty graph,
+        # otherwise outside the fragment (never a silently lost update)
+        if isinstance(val, Obj) and name == self.adjacency_field:
+            h = path.heap.get(val.oid)
+            if h is not None and h.kind == 'inst' and h.fields is not None \
+                    and '$base' in h.fields and name not in h.fields:
+                base = h.fields['$base']
+                untouched = all(
+                    not path.heap[h.fields[k].oid].parts
+                    for k in ('$edges', '$nodes', '$sedges')
+                    if isinstance(h.fields.get(k), Obj))
+                if base == App('mkgraph', Const(None), Const(None)) and \
+                        untouched:
+                    d = path.alloc('dict', site=node)
+                    h.fields[name] = d
+                    return d
+                I.inconclusive('direct access to the adjacency of a graph '
+                               'built by the constructor', node)
+        return None
+
     def graph_call(self, I, fv, args, kw, path, node):
         if isinstance(fv, FRef) and fv.fi is self.sccs and len(args) == 1:
             return [(path, App('sccs', self.snap_graph(I, args[0], path)))]
